@@ -116,6 +116,9 @@ def usbExc : Usbtmc.PyExc → String
   | .usbTimeout => "exc:USBError:110"
   | .usbError => "exc:USBError:5"
   | .hang => "hang"
+  | .usbtmcMismatch => "exc:UsbtmcException"
+  | .indexError => "exc:IndexError"
+  | .valueError => "exc:ValueError"
 
 def termChar? (s : String) : Option (Option UInt8) :=
   if s == "-" then some none
@@ -131,10 +134,28 @@ def fault? (s : String) : Option (Option (Nat × Bool)) :=
     | _ => none
 
 def ev? (s : String) : Option Usbtmc.Ev :=
-  if s == "!" then some .ioErr else (item s).map .data
+  if s == "!" then some .ioErr else if s == "~" then some .timeout else (item s).map .data
 
 def script? (s : String) : Option (List Usbtmc.Ev) :=
   if s == "-" then some [] else (s.splitOn ",").mapM ev?
+
+def flags2 (a b : String) : Option (Bool × Bool) :=
+  match bool01 a, bool01 b with
+  | some x, some y => some (x, y)
+  | _, _ => none
+
+def showCtrl (l : List (Nat × Nat)) : String :=
+  if l.isEmpty then "-" else ",".intercalate (l.map (fun (a, b) => s!"{a}:{b}"))
+
+def showW (x : Usbtmc.WOut × Usbtmc.AbortLog × List Nat) : String :=
+  let (r, a, _) := x
+  let head := match r.exc with | none => "ok" | some e => usbExc e
+  s!"{head} tag={r.last} abort={showOptNat r.abortTag} ctrl={showCtrl a.ctrl} clr={if a.clearHalt then 1 else 0} sent={showItems r.sent}"
+
+def showR (x : Usbtmc.ROut × Usbtmc.AbortLog × List Nat) : String :=
+  let (r, a, _) := x
+  let head := match r.res with | .ok d => s!"ok {Drv.hex d}" | .error e => usbExc e
+  s!"{head} tag={r.rs.last} abort={showOptNat r.abortTag} ctrl={showCtrl a.ctrl} ard={showOptNat a.bulkRead} reqs={showItems r.rs.reqs} sizes={showNats r.rs.sizes} left={r.left.length}"
 
 def usbLine : List String → String
   | ["u.consts"] =>
@@ -165,27 +186,55 @@ def usbLine : List String → String
       | some (m, t, ti, ts, a, d) => s!"ok {m.toNat} {t.toNat} {ti.toNat} {ts} {a.toNat} {Drv.hex d}"
       | none => "exc:struct.error"
     | none => "bad-op"
-  | ["u.write", last, mts, fault, data] =>
-    match last.toNat?, mts.toNat?, fault? fault, Drv.unhex data with
-    | some l, some m, some f, some d =>
-      let r := Usbtmc.writeRaw m f l d
+  | ["u.write", last, mts, fault, ctrl, data] =>
+    match last.toNat?, mts.toNat?, fault? fault, natList ctrl, Drv.unhex data with
+    | some l, some m, some f, some cs, some d => showW (Usbtmc.writeRawA m f l d cs)
+    | _, _, _, _, _ => "bad-op"
+  | ["u.read", last, mts, tc, rigol, adv, ieee, chk, num, ctrl, script] =>
+    match last.toNat?, mts.toNat?, termChar? tc, bool01 rigol, bool01 adv, flags2 ieee chk, int? num, natList ctrl, script? script with
+    | some l, some m, some c, some rg, some ad, some (ie, ck), some n, some cs, some sc =>
+      showR (Usbtmc.readRawA { mts := m, termChar := c, rigol := rg, advantest := ad, rigolIeee := ie, checkHdr := ck } l n sc cs)
+    | _, _, _, _, _, _, _, _, _ => "bad-op"
+  | ["u.ask", last, mts, tc, rigol, adv, ieee, chk, num, fault, ctrl, data, script] =>
+    match last.toNat?, mts.toNat?, termChar? tc, bool01 rigol, bool01 adv, flags2 ieee chk, int? num, fault? fault,
+          natList ctrl, Drv.unhex data, script? script with
+    | some l, some m, some c, some rg, some ad, some (ie, ck), some n, some f, some cs, some d, some sc =>
+      match Usbtmc.askRaw { mts := m, termChar := c, rigol := rg, advantest := ad, rigolIeee := ie, checkHdr := ck } l d n f sc cs with
+      | ((w, wa), none) => s!"{showW (w, wa, [])} | -"
+      | ((w, wa), some (r, ra)) => s!"{showW (w, wa, [])} | {showR (r, ra, [])}"
+    | _, _, _, _, _, _, _, _, _, _, _ => "bad-op"
+  | ["u.stb", lastRstb, b0, b1, b2, intr] =>
+    match lastRstb.toNat?, b0.toNat?, b1.toNat?, b2.toNat?, natList intr with
+    | some l, some x0, some x1, some x2, some il =>
+      let io : Option (Option (Nat × Nat)) := match il with | [] => some none | [a, b] => some (some (a, b)) | _ => none
+      match io with
+      | some i =>
+        let r := Usbtmc.readStb l x0 x1 x2 i
+        let head := match r.res with | .ok v => s!"ok {v}" | .error e => usbExc e
+        s!"{head} rstb={r.lastRstb} wvalue={r.wValue} intr={if r.readIntr then 1 else 0}"
+      | none => "bad-op"
+    | _, _, _, _, _ => "bad-op"
+  | ["u.clear", force, ctrl] =>
+    match bool01 force, natList ctrl with
+    | some f, some cs =>
+      let r := Usbtmc.clearSeq f cs
       let head := match r.exc with | none => "ok" | some e => usbExc e
-      s!"{head} tag={r.last} abort={showOptNat r.abortTag} sent={showItems r.sent}"
-    | _, _, _, _ => "bad-op"
-  | ["u.read", last, mts, tc, rigol, adv, num, script] =>
-    match last.toNat?, mts.toNat?, termChar? tc, bool01 rigol, bool01 adv, int? num, script? script with
-    | some l, some m, some c, some rg, some ad, some n, some sc =>
-      let r := Usbtmc.readRaw { mts := m, termChar := c, rigol := rg, advantest := ad } l n sc
-      let head := match r.res with | .ok d => s!"ok {Drv.hex d}" | .error e => usbExc e
-      s!"{head} tag={r.rs.last} abort={showOptNat r.abortTag} reqs={showItems r.rs.reqs} sizes={showNats r.rs.sizes} left={r.left.length}"
-    | _, _, _, _, _, _, _ => "bad-op"
-  | ["u.host", script] =>           -- the host-side reference of the model (USBTMC 1.0 §3.3)
-    match script? script with
-    | some sc =>
-      match Usbtmc.hostSpec sc [] with
+      s!"{head} ctrl={showCtrl r.ctrl} out={if r.clearedOut then 1 else 0} in={if r.clearedIn then 1 else 0}"
+    | _, _ => "bad-op"
+  | ["u.trig", sup, mts, last] =>
+    match bool01 sup, mts.toNat?, last.toNat? with
+    | some sp, some m, some l =>
+      let r := Usbtmc.trigger sp m l
+      let head := match r.exc with | none => "ok" | some e => usbExc e
+      s!"{head} tag={r.last} sent={showItems r.sent}"
+    | _, _, _ => "bad-op"
+  | ["u.host", chk, last, script] =>           -- the host-side reference of the model (USBTMC 1.0 §3.3)
+    match bool01 chk, last.toNat?, script? script with
+    | some ck, some l, some sc =>
+      match Usbtmc.hostSpec ck l sc [] with
       | some d => s!"ok {Drv.hex d}"
       | none => "error"
-    | none => "bad-op"
+    | _, _, _ => "bad-op"
   | ["u.dev", prev, transfers] =>      -- the reference device decoder of the model (USBTMC 1.0 §3.2)
     match optNat prev, itemList transfers with
     | some p, some ts =>
